@@ -77,6 +77,20 @@ def _lock(name):
     return f
 
 
+def _mtime(p):
+    try:
+        return os.path.getmtime(p)
+    except OSError:
+        return 0.0
+
+
+def _touch(p):
+    try:
+        os.utime(p, None)
+    except OSError:
+        pass
+
+
 def generate(root=None, force=False):
     """Run the driver over the workspace at `root`; returns the facts directory."""
     root = root or repo_root()
@@ -84,6 +98,7 @@ def generate(root=None, force=False):
     out = os.path.join(CACHE, "facts", h)
     marker = os.path.join(out, "OK")
     if os.path.exists(marker) and not force:
+        _touch(marker)
         return out
     lock = _lock("facts")
     try:
@@ -121,11 +136,13 @@ def generate(root=None, force=False):
                 raise InfraError(f"driver produced no {need} (cargo skipped the wrapper?)\n" + r.stdout[-3000:])
         with open(marker, "w") as f:
             json.dump({"tree_hash": h, "root": root, "wall_s": round(time.time() - t0, 2)}, f)
-        # keep the cache small: drop all but the 6 most recent fact sets
+        # keep the cache small: beyond the 6 most recent fact sets, drop those nobody has used for 20 minutes (a concurrent
+        # check of another tree may still be loading its own set; every use touches the marker)
         base = os.path.join(CACHE, "facts")
-        ds = sorted((os.path.getmtime(os.path.join(base, d)), d) for d in os.listdir(base))
-        for _, d in ds[:-6]:
-            shutil.rmtree(os.path.join(base, d), ignore_errors=True)
+        ds = sorted((_mtime(os.path.join(base, d, "OK")), d) for d in os.listdir(base))
+        for mt, d in ds[:-6]:
+            if time.time() - mt > 1200:
+                shutil.rmtree(os.path.join(base, d), ignore_errors=True)
         return out
     finally:
         lock.close()
@@ -196,10 +213,17 @@ class Crate:
 class Facts:
     def __init__(self, root=None):
         self.root = root or repo_root()
-        self.dir = generate(self.root)
         self.hash = tree_hash(self.root)
-        self.lib = Crate(os.path.join(self.dir, "zeep_lib.json"))
-        self.bin = Crate(os.path.join(self.dir, "zeep.json"))
+        for attempt in (0, 1):
+            self.dir = generate(self.root, force=bool(attempt))
+            try:
+                self.lib = Crate(os.path.join(self.dir, "zeep_lib.json"))
+                self.bin = Crate(os.path.join(self.dir, "zeep.json"))
+                break
+            except (OSError, ValueError) as e:
+                # the cached fact set vanished or is damaged (cache cleaned by a concurrent run): regenerate once
+                if attempt:
+                    raise InfraError(f"fact files unreadable: {e}")
 
     def src(self, rel):
         with open(os.path.join(self.root, rel)) as f:
